@@ -258,6 +258,14 @@ class Explorer:
                 # the same local state was reached before along another history: merge
                 self.merge = tgt
                 return 'ALIAS'
+        if fp is not None and not self.validating and (ctx.name, fp) not in FP_BLACKLIST:
+            # the same local state at the same operation earlier in THIS run (a polling loop whose body is not made of
+            # state-preserving operations only, e.g. it gives up and retakes a lock): close the cycle
+            for j in range(d - 1, max(-1, d - 200), -1):
+                r = tr[j]
+                if r.fp == fp and r.desc() == desc and r.loc == loc:
+                    self.alias = d - j
+                    return 'ALIAS'
         for p in range(1, self.max_cycle + 1):
             if d < 2 * p:
                 break
